@@ -176,4 +176,4 @@ def run(ck):
     ck.floor("R20", "status property evaluations", n10[0], 640)
     ck.floor("R20", "send() prologue scenarios", n2, 256)
     ck.floor("R20.9", "load_ack paths", n9, 10)
-    ck.floor("R20", "SPI primitives", n1e, 4)
+    ck.floor("R20", "SPI primitives", n1e, 2)
